@@ -48,7 +48,7 @@ IdOf(s, i) == IF i > Len(s) THEN "" ELSE ToString(s[i]) \o (IF i < Len(s) THEN "
 NamePrefix(k) == <<"", "", "./", "mods//", "x/../", "">>[(k % 6) + 1]
 FilesOf(s) == [i \in 1..Len(s) |-> [name |-> NamePrefix(s[i] + (3 * i)) \o "f" \o ToString(i) \o ".fga", header |-> Pool[s[i]].header, decls |-> Pool[s[i]].decls, conds |-> Pool[s[i]].conds,
                                     loose |-> (s[i] + i) % 2 = 0,
-                                    eol |-> IF (s[i] + (2 * i)) % 3 = 0 THEN "\r\n" ELSE "\n", cont |-> s[i] = 21, lure |-> s[i] \in {13, 19}, brace |-> s[i] \in {3, 13, 20}, plain |-> s[i] \in {24, 25}]]
+                                    eol |-> IF (s[i] + (2 * i)) % 3 = 0 THEN "\r\n" ELSE "\n", cont |-> s[i] = 21, lure |-> s[i] \in {13, 19}, brace |-> s[i] \in {3, 13, 20}, plain |-> s[i] \in {24, 25}, crc |-> s[i] \in {4, 10, 13, 15}]]
 RECURSIVE Off(_)
 Off(n) == IF n = 0 THEN 0 ELSE Off(n - 1) + Pow(K, n)
 LenFor(i) == CHOOSE n \in 1..MaxFiles : Off(n - 1) < i /\ i <= Off(n)
